@@ -388,6 +388,35 @@ def run_serialize_op(ser, op, cfg=None):
         return ("raise", type(e).__name__, str(e)[:200])
 
 
+def start_serialize(ser, op):
+    """serialize() is lazy: the caller may create the generator now and consume it later (a streaming response body).
+    -> ("started", generator) | ("setup_raise", ...) | ("raise", ...)"""
+    try:
+        p = new_parser({"builder": op["builder"], "ns": True, "strict": False})
+        tree = p.parse(_doc_text(op))
+        walker = treewalkers.getTreeWalker(walker_name(op["builder"]))
+        stream = walker(tree)
+    except Exception as e:
+        return ("setup_raise", type(e).__name__, str(e)[:200])
+    try:
+        return ("started", ser.serialize(stream, op.get("encoding")))
+    except SerializeError:
+        return ("serialize_error", tuple(ser.errors))
+    except Exception as e:
+        return ("raise", type(e).__name__, str(e)[:200])
+
+
+def finish_serialize(ser, op, g):
+    """Consume a generator created earlier; same outcome shape as run_serialize_op."""
+    try:
+        joined = (b"" if op.get("encoding") else "").join(list(g))
+        return ("ok", joined, tuple(ser.errors), None)
+    except SerializeError:
+        return ("serialize_error", tuple(ser.errors))
+    except Exception as e:
+        return ("raise", type(e).__name__, str(e)[:200])
+
+
 def run_walk_op(op):
     """walk_twice: a walker object iterated twice gives the same stream, and a
     second walker object over the same tree as well."""
@@ -777,6 +806,8 @@ def gen_ser_twin_pair(rng, oi):
         ops.append({"op": "serialize", "obj": oi, "doc": [text], "builder": builder if rng.random() < 0.8 else rng.choice(["etree", "dom"]),
                     "encoding": enc if rng.random() < 0.7 else rng.choice(ENCODINGS_OUT)})
     if rng.random() < 0.3:
+        ops[0]["defer"] = True       # created, then the second one runs, then the first one is consumed
+    if rng.random() < 0.3:
         ops.append(dict(ops[0]))
     return ops
 
@@ -842,6 +873,8 @@ def gen_history(rng, stream):
                 op["take"] = rng.randint(0, 12)
             elif rng.random() < 0.25:
                 op["reser"] = True       # the tree is edited and rendered again with the same serializer and walker object
+            elif rng.random() < 0.25:
+                op["defer"] = True       # the generator is created now and consumed after the next call on this serializer
             ops.append(op)
             pending_observer = None
             continue
@@ -1076,6 +1109,7 @@ def execute(case):
     handed_out_errors = []   # (op index, the parser.errors list object as handed out, its canonical form then)
     handed_out_ser_errors = []   # the same for HTMLSerializer.errors
     reach = set()
+    deferred = {}    # serializer index -> [(op index, op, generator created but not yet consumed)]
     trace = [("aged",) + a for a in aged]
     failure = None
     for i, op in enumerate(case["ops"]):
@@ -1125,7 +1159,18 @@ def execute(case):
             cold_restart()
             after_cold = True
         restarts_before = P.get("restart_fired", 0)
-        out = exec_op(obj, cfg, op)
+        if kind == "serialize" and op.get("defer"):
+            st = start_serialize(obj, op)
+            if st[0] == "started":
+                # consumed after the NEXT call on the same serializer has completed (or at the end of the history)
+                deferred.setdefault(oi, []).append((i, op, st[1]))
+                f["serializer_generator_consumed_later"] = f.get("serializer_generator_consumed_later", 0) + 1
+                trace.append((kind, oi, "deferred"))
+                uses[oi] += 1
+                continue
+            out = st
+        else:
+            out = exec_op(obj, cfg, op)
         pub = public_outcome(out)
         ref = fresh_outcome(cfg, op) if op.get("stack") is None else None
         uses[oi] += 1
@@ -1208,12 +1253,21 @@ def execute(case):
             errs = getattr(obj, "errors", None)
             if isinstance(errs, list):
                 handed_out_ser_errors.append((i, errs, tuple(errs)))
+        if cfg["type"] == "serializer" and deferred.get(oi):
+            failure = _consume_deferred(deferred.pop(oi), obj, cfg, oi, trace, handed_out_ser_errors)
+            if failure:
+                break
         if cfg["type"] == "parser" and out[0] in ("ok", "parse_error"):
             # the caller may keep parser.errors as the record for this input: the
             # list object itself (not a copy) is looked at again at the end
             errs = getattr(obj, "errors", None)
             if isinstance(errs, list):
                 handed_out_errors.append((i, errs, _errors_snapshot(errs)))
+    if failure is None:
+        for oi in sorted(deferred):
+            failure = _consume_deferred(deferred[oi], objs[oi], case["objs"][oi], oi, trace, handed_out_ser_errors)
+            if failure:
+                break
     if failure is None:
         # cross-invariant: nothing returned earlier has changed since
         for (i, builder, tree, canon0) in returned:
@@ -1273,6 +1327,23 @@ def execute(case):
         res["oracle"] = failure[0]
         res["detail"] = failure[1]
     return res
+
+
+def _consume_deferred(items, ser, cfg, oi, trace, handed_out_ser_errors):
+    """Consume generators created by earlier serialize() calls on `ser` (oldest first) and compare each with what a brand-new
+    serializer gives for the same call.  -> failure tuple or None"""
+    for (j, op, g) in items:
+        out = finish_serialize(ser, op, g)
+        ref = fresh_outcome(cfg, op)
+        trace.append(("serialize-consumed-later", oi, j, out[0], env.digest(out)[:12]))
+        if out != ref:
+            return ("reuse", "op %d (serialize on object %d): the generator was created, another call was made on the same serializer, "
+                    "then the generator was consumed: it yields %s, a brand-new serializer gives %s for the same call"
+                    % (j, oi, brief(out, 200), brief(ref, 200)))
+        errs = getattr(ser, "errors", None)
+        if isinstance(errs, list):
+            handed_out_ser_errors.append((j, errs, tuple(errs)))
+    return None
 
 
 def _errors_snapshot(errs):
@@ -1399,6 +1470,8 @@ def _simpler_ops(op):
         yield dict(op, take=op["take"] - 1)
     if op.get("reser"):
         yield {k: v for k, v in op.items() if k != "reser"}
+    if op.get("defer"):
+        yield {k: v for k, v in op.items() if k != "defer"}
     if op.get("filters"):
         for k in range(len(op["filters"])):
             yield dict(op, filters=op["filters"][:k] + op["filters"][k + 1:])
